@@ -282,7 +282,8 @@ static cat_return_state ev_read(const struct cat_command *cmd, uint8_t *data, si
         (void)data; (void)data_size; (void)max;
         inside_point(2);
         delivered[(cmd - cmds) - 1]++;
-        return CAT_RETURN_STATE_DATA_OK;
+        /* the first producer's events fail: an event that ends through the error path must not disturb the ones queued behind it */
+        return ((cmd - cmds) - 1 == 1) ? CAT_RETURN_STATE_ERROR : CAT_RETURN_STATE_DATA_OK;
 }
 static cat_return_state ev_test(const struct cat_command *cmd, uint8_t *data, size_t *data_size, const size_t max)
 {
